@@ -246,6 +246,32 @@ size_t StringDictionaryXBW::getSize() {
 }
 
 void StringDictionaryXBW::save(std::ostream &out) {
+  if (alpha == NULL) {
+    // Loaded dictionary: the plain arrays are recovered from the XBW
+    len = xbw->nodesCount;
+    mapping = new uint[257];
+    alpha = new uint[len];
+    last = new uint[len / W + 1];
+    A = new uint[len / W + 2];
+
+    for (uint i = 0; i < 257; i++)
+      mapping[i] = xbw->mapping[i];
+    for (uint i = 0; i < len / W + 1; i++)
+      last[i] = 0;
+    for (uint i = 0; i < len / W + 2; i++)
+      A[i] = 0;
+
+    for (uint i = 0; i < len; i++) {
+      alpha[i] = xbw->alpha->access(i);
+      if (xbw->last->access(i))
+        bitset(last, i);
+    }
+    for (uint i = 0; i <= len; i++)
+      if (xbw->A->access(i))
+        bitset(A, i);
+    bitset(A, len + 1);
+  }
+
   saveValue<uint32_t>(out, type);
   saveValue<uint64_t>(out, elements);
   saveValue<uint32_t>(out, maxlength);
